@@ -94,6 +94,9 @@ func sameEng(a, b engOut) bool {
 	return a.Status == b.Status && reflect.DeepEqual(a.Val, b.Val)
 }
 
+// interpRouteOverride selects a route other than the first one (single-threaded drivers only).
+var interpRouteOverride *ast.Route
+
 // runInterp executes the first route of mod on interp (a fresh one when nil).
 func runInterp(interp *interpreter.Interpreter, mod *ast.Module, reqPath string) (out engOut) {
 	defer func() {
@@ -108,6 +111,9 @@ func runInterp(interp *interpreter.Interpreter, mod *ast.Module, reqPath string)
 		}
 	}
 	rt := firstRoute(mod)
+	if interpRouteOverride != nil {
+		rt = interpRouteOverride
+	}
 	resp, err := interp.ExecuteRoute(rt, &interpreter.Request{Path: reqPath, Method: "GET", Headers: map[string]string{}})
 	if err != nil {
 		return engOut{Kind: "error", Err: err.Error()}
